@@ -268,6 +268,10 @@ impl SqPackData {
         let mut index_data_offsets: [u32; 3] = [0; 3];
         let mut index_data_sizes: [u32; 3] = [0; 3];
 
+        // the model file header has no fields for these, but the blocks have to be read
+        let mut edge_data_offsets: [u32; 3] = [0; 3];
+        let mut edge_data_sizes: [u32; 3] = [0; 3];
+
         // start writing at 0x44
         buffer.seek(SeekFrom::Start(0x44)).ok()?;
 
@@ -359,7 +363,14 @@ impl SqPackData {
                 &mut vertex_data_sizes,
             );
 
-            // TODO: process edges
+            // process edge geometry
+            process_model_data(
+                i,
+                model_file_info.num.edge_geometry_vertex_buffer_size[i] as u32,
+                model_file_info.offset.edge_geometry_vertex_buffer_size[i],
+                &mut edge_data_offsets,
+                &mut edge_data_sizes,
+            );
 
             // process indices
             process_model_data(
